@@ -51,6 +51,30 @@ def has_empty_seqof(t):
     return False
 
 
+def judge_msg(v, c, e, o):
+    def k(): return "msg:" + ("panic" if "panic" in o else ("bytes" if o.get("written") != e["bytes"] else ("length" if o.get("length") != e["length"] else ("read" if not o.get("rres") else ("value" if o.get("back") != e["value"] else "consumed")))))
+    ok = "panic" not in o and o["wres"] and o["written"] == e["bytes"] and o["length"] == e["length"] and o["rres"] and o["back"] == e["value"] and o["used"] == e["length"]
+    if not ok:
+        v.violation(k(), "message shape %s with value %s: reference bytes %s length %d; library wrote %s length %s, read back %s consuming %s%s" % (
+            json.dumps(c["shape"])[:300], json.dumps(e["value"])[:120], e["bytes"][:40], e["length"], o.get("written", [])[:40] if "written" in o else None, o.get("length"), json.dumps(o.get("back"))[:120], o.get("used"), (" PANIC " + o["panic"]) if "panic" in o else ""),
+            {"case": c, "expected": e, "got": o})
+
+
+def selftest18(cases, exp, outs):
+    """corrupted observations (a byte written differently, a length off by one, a field read back differently, one byte
+    more consumed, a panic) must be flagged by the comparison"""
+    res = []
+    idx = [i for i, (e, o) in enumerate(zip(exp, outs)) if e["length"] >= 3 and "panic" not in o and o.get("written") == e["bytes"]][:500:100]
+    for i in idx:
+        c, e, o = cases[i], exp[i], outs[i]
+        w = o["written"]
+        for name, o2 in (("byte_changed", dict(o, written=[(w[0] + 1) % 256] + w[1:])), ("length_off_by_one", dict(o, length=o["length"] + 1)),
+                         ("value_changed", dict(o, back=["corrupted"])), ("over_consumed", dict(o, used=o["used"] + 1)),
+                         ("read_failed", dict(o, rres=False)), ("panic", dict(o, panic="index out of bounds"))):
+            pr = core.Probe(); judge_msg(pr, c, e, o2); res.append(("%s#%d" % (name, i), bool(pr.hits)))
+    return core.forward_selftest(res)
+
+
 def run(tier, seed):
     v = core.Verdict("C18", tier, seed)
     wd = core.workdir("C18")
@@ -79,14 +103,9 @@ def run(tier, seed):
         if rc != 0:
             raise core.ToolError("model driver failed: " + err[-800:])
         outs = [json.loads(l) for l in open(hout)]
-        shapes_kinds = {}
         for c, e, o in zip(cases, exp, outs):
-            def k(): return "msg:" + ("panic" if "panic" in o else ("bytes" if o.get("written") != e["bytes"] else ("length" if o.get("length") != e["length"] else ("read" if not o.get("rres") else ("value" if o.get("back") != e["value"] else "consumed")))))
-            ok = "panic" not in o and o["wres"] and o["written"] == e["bytes"] and o["length"] == e["length"] and o["rres"] and o["back"] == e["value"] and o["used"] == e["length"]
-            if not ok:
-                v.violation(k(), "message shape %s with value %s: reference bytes %s length %d; library wrote %s length %s, read back %s consuming %s%s" % (
-                    json.dumps(c["shape"])[:300], json.dumps(e["value"])[:120], e["bytes"][:40], e["length"], o.get("written", [])[:40] if "written" in o else None, o.get("length"), json.dumps(o.get("back"))[:120], o.get("used"), (" PANIC " + o["panic"]) if "panic" in o else ""),
-                    {"case": c, "expected": e, "got": o})
+            judge_msg(v, c, e, o)
+        tested = selftest18(cases, exp, outs)
         # ---- PER tables, GCC responses, ASN.1 trees
         gcc_f, trees_f, per_f, der_f = [os.path.join(wd, x) for x in ("gcc.ndjson", "trees.ndjson", "per.table.ndjson", "der.out.ndjson")]
         rc, err = core.run_harness(vh, "model", ["--dump-gcc", "x", "--out", gcc_f])
@@ -153,7 +172,7 @@ def run(tier, seed):
                        "972 object identifiers, octet strings of every length 0..140 with minimum 0 and 4, all enumerated; %d random ASN.1 trees of depth <= 3; %d GCC responses (6 versions x optional fields x SC_SECURITY x 5 block orders incl. unknown blocks x 5 channel lists); distinct = distinct cases" % (
                            len(cases), len(ders), sum(1 for r in per_rows if r["k"] == "gcc")),
                "samples": [{"shape": cases[3]["shape"], "value": exp[3]["value"], "bytes": exp[3]["bytes"]}, per_rows[40000]],
-               "drift_notes": drift}
+               "drift_notes": drift, "binding_selftest_rejected": tested}
         return v.finish("exploration", cov, [
             "agree = each side decodes the other's bytes to the same value and the library round-trips; non-minimal but decodable library encodings (write_integer(255) in two octets) are counted as drift, not violations",
             "PER integer encoders of deployed stacks use 1, 2 or 4 octets; the reference decoder accepts 1..4",
